@@ -50,7 +50,7 @@ func runC24(c *eng.Ctx) {
 	rejectsZero := func(kind int64) bool {
 		kre := regexp.MustCompile(fmt.Sprintf(`== %d:messageKind\)`, kind))
 		for _, ret := range eng.Returns(read) {
-			if len(ret.Results) != 1 || eng.IsNilConst(ret.Results[0]) {
+			if len(eng.RetResults(ret)) != 1 || eng.IsNilConst(eng.RetResults(ret)[0]) {
 				continue
 			}
 			g := eng.Guards(ret)
